@@ -1,5 +1,5 @@
 INIT Init
-NEXT Next
+NEXT SimNext
 CONSTANTS
   DIR = {"s", "r"}
   RF = {"all"}
@@ -9,5 +9,6 @@ CONSTANTS
   CFMT = {"text", "bin", "both", "def"}
   L = 1
   Alpha = "full"
+  Sim = TRUE
 INVARIANT LeafInv
 CHECK_DEADLOCK FALSE
